@@ -301,6 +301,19 @@ fn sweep_monitor(kind: &str, env: &Env, r: &SweepReq, locktime_bound: Option<u32
     }
 }
 
+
+/// the returned sweep signature must be a valid SIGHASH_ALL signature of the expected key on the submitted tx
+fn sweep_sig_monitor(kind: &str, tx: &Transaction, input: usize, redeem: &ScriptBuf, sig: &Option<lightning_signer::bitcoin::secp256k1::ecdsa::Signature>, pk: &PublicKey, at: usize, co: &mut CaseOut) {
+    let secp = Secp256k1::new();
+    let ok = match (sig, SighashCache::new(tx).p2wsh_signature_hash(input, redeem, Amount::from_sat(20_000), EcdsaSighashType::All)) {
+        (Some(s), Ok(h)) => secp.verify_ecdsa(&Message::from_digest(h.to_byte_array()), s, pk).is_ok(),
+        _ => false,
+    };
+    if !ok {
+        co.violations.push(Violation { kind: "sweep-signature-invalid".into(), desc: format!("{}: the returned signature does not verify for the channel's sweep key on input {} of the submitted transaction", kind, input), at });
+    }
+}
+
 pub struct C09Sweep;
 
 impl C09Sweep {
@@ -333,8 +346,12 @@ impl C09Sweep {
                 let tx = r.tx(&node);
                 let redeem = garbage_script();
                 let wp = to_dp(&r.wpath);
-                let res = guard(&mut || node.with_channel(&cid, |chan| chan.sign_delayed_sweep(&tx, r.input, cnum, &redeem, 20_000, &wp).map(|_| ())));
+                let mut sig_out = None;
+                let res = guard(&mut || node.with_channel(&cid, |chan| chan.sign_delayed_sweep(&tx, r.input, cnum, &redeem, 20_000, &wp).map(|s| { sig_out = Some(s); })));
                 if res == "ok" {
+                    let point = node.with_channel(&cid, |chan| chan.get_per_commitment_point(cnum)).unwrap();
+                    let pk = get_channel_delayed_payment_pubkey(&node, &cid, &point);
+                    sweep_sig_monitor("delayed", &tx, r.input, &redeem, &sig_out, &pk, at, co);
                     let seq_ok = r.seqs.first() == Some(&(CP_DELAY as u32));
                     sweep_monitor("delayed", env, &r, Some(r.height.saturating_add(2)), seq_ok, at, co);
                 }
@@ -347,20 +364,42 @@ impl C09Sweep {
                 let form_anchors = *form == "1";
                 let point = foreign_key(500);
                 let keys = node.with_channel(&cid, |chan| Ok(chan.make_counterparty_tx_keys(&point))).unwrap();
+                let mut negative_cltv = false;
                 let (redeem, cltv): (ScriptBuf, Option<u32>) = if *script == "x" {
                     (garbage_script(), None)
                 } else {
                     // counterparty perspective: "received" by the counterparty = offered == false in its commitment
                     let offered = *script == "o";
-                    let cltv: u32 = if offered { 0 } else { script[1..].parse().unwrap_or(0) };
+                    let cltv_signed: i64 = if offered { 0 } else { script[1..].parse().unwrap_or(0) };
+                    let cltv: u32 = cltv_signed.unsigned_abs().min(u32::MAX as u64) as u32;
                     let htlc = HTLCOutputInCommitment { offered, amount_msat: 20_000_000, cltv_expiry: cltv, payment_hash: PaymentHash([3; 32]), transaction_output_index: Some(0) };
-                    (get_htlc_redeemscript(&htlc, &features(form_anchors), &keys), if offered { None } else { Some(cltv) })
+                    let mut sc = get_htlc_redeemscript(&htlc, &features(form_anchors), &keys);
+                    if cltv_signed < 0 {
+                        // a negative script number: set the sign bit of the last byte of the cltv push (… <cltv> OP_CLTV)
+                        let mut b = sc.to_bytes();
+                        let le: Vec<u8> = { let mut v = cltv.to_le_bytes().to_vec(); while v.last() == Some(&0) { v.pop(); } v };
+                        let mut pat = vec![le.len() as u8];
+                        pat.extend_from_slice(&le);
+                        pat.push(0xb1);
+                        if let Some(pos) = b.windows(pat.len()).position(|w| w == &pat[..]) {
+                            b[pos + le.len()] |= 0x80;
+                            negative_cltv = true;
+                        }
+                        sc = ScriptBuf::from_bytes(b);
+                    }
+                    (sc, if offered { None } else { Some(cltv) })
                 };
                 let wp = to_dp(&r.wpath);
-                let res = guard(&mut || node.with_channel(&cid, |chan| chan.sign_counterparty_htlc_sweep(&tx, r.input, &point, &redeem, 20_000, &wp).map(|_| ())));
+                let mut sig_out = None;
+                let res = guard(&mut || node.with_channel(&cid, |chan| chan.sign_counterparty_htlc_sweep(&tx, r.input, &point, &redeem, 20_000, &wp).map(|s| { sig_out = Some(s); })));
                 if res == "ok" {
+                    let pk = get_channel_htlc_pubkey(&node, &cid, &point);
+                    sweep_sig_monitor("cphtlc", &tx, r.input, &redeem, &sig_out, &pk, at, co);
                     let valid: &[u32] = if ct_anchors(&env.ct) { &[1] } else { &[0, 0xffff_fffd, 0xffff_ffff] };
                     let seq_ok = r.seqs.first().map(|s| valid.contains(s)).unwrap_or(false);
+                    if negative_cltv {
+                        co.violations.push(Violation { kind: "sweep-locktime-out-of-bounds".into(), desc: format!("counterparty HTLC sweep signed for a received-HTLC script with a negative cltv_expiry ({}): no locktime bound at all", script), at });
+                    }
                     if *script == "x" || form_anchors != ct_anchors(&env.ct) {
                         co.violations.push(Violation { kind: "sweep-bad-redeemscript-signed".into(), desc: "counterparty HTLC sweep signed for a redeemscript that is not an HTLC script of this channel type".into(), at });
                     }
@@ -383,8 +422,11 @@ impl C09Sweep {
                 let redeem = garbage_script();
                 let secret = SecretKey::from_slice(&[9u8; 32]).unwrap();
                 let wp = to_dp(&r.wpath);
-                let res = guard(&mut || node.with_channel(&cid, |chan| chan.sign_justice_sweep(&tx, r.input, &secret, &redeem, 20_000, &wp).map(|_| ())));
+                let mut sig_out = None;
+                let res = guard(&mut || node.with_channel(&cid, |chan| chan.sign_justice_sweep(&tx, r.input, &secret, &redeem, 20_000, &wp).map(|s| { sig_out = Some(s); })));
                 if res == "ok" {
+                    let pk = get_channel_revocation_pubkey(&node, &cid, &PublicKey::from_secret_key(&secp, &secret));
+                    sweep_sig_monitor("justice", &tx, r.input, &redeem, &sig_out, &pk, at, co);
                     let seq_ok = r.seqs.first().map(|s| [0u32, 0xffff_fffd, 0xffff_ffff].contains(s)).unwrap_or(false);
                     sweep_monitor("justice", env, &r, Some(r.height.saturating_add(2)), seq_ok, at, co);
                 }
@@ -624,7 +666,7 @@ impl Group for C09Sweep {
             (["cphtlc", _, ct, height, ver, lt, seqs, input, script, form, wpath, outs], Some(cfg)) => {
                 let r = parse_sweep(height, ver, lt, seqs, input, wpath, outs)?;
                 // read_scriptint accepts at most 4 bytes: a cltv_expiry ≥ 2^31 does not parse as an HTLC script
-                let cltv_fits = script.strip_prefix('r').map(|c| c.parse::<u64>().map(|c| c <= 0x7fff_ffff).unwrap_or(false)).unwrap_or(true);
+                let cltv_fits = script.strip_prefix('r').map(|c| c.parse::<i64>().map(|c| c.unsigned_abs() <= 0x7fff_ffff).unwrap_or(false)).unwrap_or(true);
                 let parses = (*form == "1") == ct_anchors(ct) && *script != "x" && cltv_fits;
                 Some(format!("cphtlc {} {} {} {}", r.model_front(&cfg), if parses { script.to_string() } else { "x".to_string() }, if ct_anchors(ct) { 1 } else { 0 }, r.height))
             }
@@ -673,6 +715,13 @@ impl Group for C09Sweep {
                             0 => ("x".to_string(), lt),
                             1..=4 => ("o".to_string(), lt),
                             _ => {
+                                if rng.chance(1, 12) {
+                                    // negative script number in the received-HTLC script (the sign bit set on a 3-byte cltv)
+                                    let l = *rng.pick(&[0u32, 100, lt, 1_193_046, u32::MAX]);
+                                    let form = if rng.chance(1, 10) { !ct_anchors(ct) } else { ct_anchors(ct) };
+                                    ops.push(format!("cphtlc {} {} {} {} {} {} {} r-1193046 {} {} {}", cs, ct, height, ver, l, join(&seqs), input, if form { 1 } else { 0 }, path_str(&wpath), outs_s));
+                                    continue;
+                                }
                                 let cltv = match rng.below(5) { 0 => 0, 1 => u32::MAX, 2 => 499_999_999, _ => rng.range(1, 800_000) as u32 };
                                 let l = match rng.below(6) { 0 => cltv.saturating_add(1), 1 => cltv, 2 => cltv.saturating_sub(1), 3 => 0, 4 => lt, _ => rng.below(cltv as u64 + 1) as u32 };
                                 (format!("r{}", cltv), l)
